@@ -184,6 +184,32 @@ theorem dropWhile_blank_sp_sanitize (name : Bytes) (h : sanitize name ≠ []) :
     have := sanitize_head_not_blank name b t hs
     simp [List.dropWhile, this]
 
+theorem mem_dropWhile {p : UInt8 → Bool} {l : Bytes} {b : UInt8} (h : b ∈ l.dropWhile p) : b ∈ l := by
+  induction l with
+  | nil => simpa using h
+  | cons x t ih =>
+    simp only [List.dropWhile] at h
+    split at h
+    · exact List.mem_cons_of_mem _ (ih h)
+    · exact h
+
+/-- `callgrindLine` (replace line breaks, THEN trim leading blanks): the result contains no
+newline and is either empty — the form `callgrindName` writes as the empty name — or starts with
+a byte that is not a blank, so that `(n) name` can never read as the bare reference `(n)`. -/
+theorem sanitize_single_line (name : Bytes) :
+    NL ∉ sanitize name ∧ (sanitize name = [] ∨ ∃ b t, sanitize name = b :: t ∧ isBlank b = false) := by
+  constructor
+  · intro h
+    have h' := mem_dropWhile h
+    simp only [List.mem_map] at h'
+    obtain ⟨x, _, hx⟩ := h'
+    split at hx
+    · exact absurd hx (by decide)
+    · rename_i hne; exact hne hx
+  · cases hs : sanitize name with
+    | nil => exact Or.inl rfl
+    | cons b t => exact Or.inr ⟨b, t, rfl, sanitize_head_not_blank name b t hs⟩
+
 /-- **one step of name compression**: what `callgrindName` emits is resolved by the checker to
 the (single-line) name, with the checker's table staying the mirror image of pprof's. -/
 theorem resolve_cgName {tbl} (hwf : WF tbl) (name : Bytes) :
